@@ -130,6 +130,9 @@ func c18case(s *Sexp) string {
 // complete whatever the timing, so the observation is deterministic there.
 func c18exclCase(s *Sexp) string {
 	variant, k := sxStr(s, "variant"), sxInt(s, "n", 5)
+	if variant == "equal" {
+		return c18equalRace(sxInt(s, "ordered", 0) == 1)
+	}
 	set := &dt.Set[int]{}
 	set.Synchronize()
 	set.Order()
@@ -172,6 +175,43 @@ func c18exclCase(s *Sexp) string {
 	<-sortDone
 	<-lenDone
 	return "excl overlapped=" + bit(overlapped)
+}
+
+// c18equalRace: a = {1,2}, b = {1,3} (caller-owned mutexes through WithLock); Equal(a, b) is made to wait
+// at b's mutex while a Delete(2) on a is started. Whatever the order — Equal first (2 is not in b) or the
+// Delete first (sizes differ) — the answer is false; an Equal that lets the Delete in between its tests
+// answers true. The sleeps only make the interleaving likely; they are not an oracle.
+func c18equalRace(ordered bool) string {
+	bad := 0
+	for round := 0; round < 25; round++ {
+		var muA, muB sync.Mutex
+		a, b := &dt.Set[int]{}, &dt.Set[int]{}
+		if ordered {
+			a.Order()
+			b.Order()
+		}
+		a.WithLock(&muA)
+		b.WithLock(&muB)
+		a.Add(1)
+		a.Add(2)
+		b.Add(1)
+		b.Add(3)
+		muB.Lock()
+		res, del := make(chan bool, 1), make(chan struct{})
+		go func() { res <- a.Equal(b) }()
+		time.Sleep(2 * time.Millisecond)
+		go func() { a.Delete(2); close(del) }()
+		select {
+		case <-del:
+		case <-time.After(20 * time.Millisecond):
+		}
+		muB.Unlock()
+		if <-res {
+			bad++
+		}
+		<-del
+	}
+	return "excl equal-true=" + fmt.Sprint(min1(bad))
 }
 
 func c18dispatch(s *Sexp) string {
